@@ -44,6 +44,19 @@ CHECKS.update({
          True),
 })
 
+CHECKS.update({
+ "C01": ("xs+enum", "model_checking",
+         "explicit-state BFS to fixpoint over the product (stream grammar as generator automaton x real LinkValidator stepped packet by packet), invariant 'no error message' on every transition; witness streams re-run on the CLI",
+         "Per configuration (barrel x data format x RDH version x internal/physics triggers x detector-field status bits x the five check modes; stave mode with ALPIDE frames from the independent encoder) the product of the grammar automaton (pages with no-data runs, data events, CDW at start, events left open and continued over one or more pages, stop pages; 2 alternating orbits, BC ladder, 2 trigger types) and a real LinkValidator (verif_step = one iteration of run()) is explored breadth-first over (grammar state, implementation fingerprint) to its fixpoint (quick: 44 320 states / 368 836 transitions over 36 configurations); every transition is a real packet pushed through the real checks and must emit no Error/Fatal. Merged histories are re-checked on the full alphabet. Second tier: maximal witness streams replicated over 1/2/3/12 links (contiguous and round-robin), padded around the 100-packet batch, run on the real CLI in the mode x {-, -m} x {-, -E 7}: no ERROR line, Total Errors 0, statistics total_errors 0, exit 0.",
+         "Finite value registers (see evidence assumptions); hit contents from the encoder's finite alphabet; HBFs of at most 3 data pages (+1 to close an open event). Longer streams are covered by state closure under the checked abstraction, not by length. Equal consecutive trigger BCs are not generated (documents disagree).",
+         True),
+ "C02": ("enum", "exploration",
+         "bounded-exhaustive fault enumeration: witness streams x fault catalogue x every applicable position x check modes, in-process through real LinkValidators (dispatched per link / FEE id) and on the CLI",
+         "6 witness streams (IB format 2 internal triggers, OL format 0 physics triggers, ML+IB interleaved; each also with ALPIDE frames for stave mode) x 63 catalogue faults (every RDH sanity field, RDH running rules, status/data word identifier and reserved-bit rules, state-dependent ITS rules E12/E110/E111/E41/E42/E44x/E71-73/E81, padding > 15) x every applicable RDH / word occurrence x 5 modes: at least one message of the rule's code family at the byte offset of the mutated RDH or word in every mode where the rule is active; no running code in any check sanity run; first applicable site per (witness, fault, mode) also on the CLI with -E 9 (exit status 9, message on stderr). A fault with no applicable site anywhere is a machinery error (vacuity guard).",
+         "Trusts the rule table (DESIGN.md Appendix A). Consequential extra errors are allowed (the property says at least one). RDH0-level faults in the first packet of a file are judged in-process only (the CLI refuses such input at start-up).",
+         True),
+})
+
 NOT_YET = {
 }
 
